@@ -132,9 +132,11 @@ def run(S):
             if ob.status.startswith('inconclusive'):
                 break
 
-    # ---- convert_math_delimited: inner edge spaces ----------------------------------------------------------------
-    for lead, trail in itertools.product((False, True), repeat=2):
-        def body(ctx, lead=lead, trail=trail):
+    # ---- convert_math_delimited: whitespace and comments between the delimiters and the body ------------------------------------
+    PATTERNS = [['m'], ['sp', 'm'], ['m', 'sp'], ['sp', 'm', 'sp'], ['c', 'sp', 'm'], ['sp', 'c', 'sp', 'm'], ['m', 'sp', 'c'], ['m', 'sp', 'c', 'sp'], ['c', 'm'], ['m', 'c'],
+                ['sp', 'c', 'sp', 'm', 'sp', 'c', 'sp'], ['c', 'sp', 'c', 'sp', 'm']]
+    for pat in PATTERNS:
+        def body(ctx, pat=pat):
             def conv_expr(m, a, ci):
                 return D.opaque_doc('expr', (T._node(m, a[2]).nid,))
 
@@ -143,51 +145,56 @@ def run(S):
             m = S.machine(core, STD, ctx, overrides={'convert_expr': conv_expr, 'convert_math': conv_math})
             op = Node(kt.k('MathText'), text=Str.lit('('))
             cl = Node(kt.k('MathText'), text=Str.lit(')'))
-            inner = Node(kt.k('Math'), children=[Node(kt.k('MathIdent'), text=Str.lit('a'))])
             kids = [op]
-            sp1 = sp2 = None
-            if lead:
-                sp1 = ws_node(ctx, 'lead')
-                kids.append(sp1)
-            kids.append(inner)
-            if trail:
-                sp2 = ws_node(ctx, 'trail')
-                kids.append(sp2)
+            spaces = {}
+            for q, c in enumerate(pat):
+                if c == 'm':
+                    kids.append(Node(kt.k('Math'), children=[Node(kt.k('MathIdent'), text=Str.lit('a'))]))
+                elif c == 'sp':
+                    nd = ws_node(ctx, 'ws%d' % q)
+                    spaces[q] = nd
+                    kids.append(nd)
+                else:
+                    kids.append(Node(kt.k('BlockComment'), text=Str.lit('/*c%d*/' % q)))
             kids.append(cl)
             node = Node(kt.k('MathDelimited'), children=kids)
             pr, cfg = printer_with_empty_attrs(m)
+            lead = pat[0] == 'sp'
+            trail = pat[-1] == 'sp'
             try:
                 d = m.call_fn(f_delim, [pr, pp.context(), Ast('MathDelimited', node)])
             except Panic as p:
                 S.absorb(m)
-                ctx.must_hold(False, 'math-delimited-panic', lambda mdl: dict(lead=lead, trail=trail, panic=p.msg))
+                ctx.must_hold(False, 'math-delimited-panic', lambda mdl: dict(pattern=pat, panic=p.msg))
                 return
             S.absorb(m)
-            at = D.atoms(d, flat=False)
+            # the fragment is observed both ways: on its own (every optional break taken) and inside an enclosing group that is laid out flat
+            for enclosing_flat in (False, True):
+                at = [a for a in D.atoms(d, flat=enclosing_flat) if not (a[0] == 't' and a[1].is_concrete() and a[1].concrete() == '')]
 
-            def describe(mdl):
-                return dict(lead=sp1.text.concrete(mdl) if sp1 else None, trail=sp2.text.concrete(mdl) if sp2 else None, atoms=show_atoms(at))
-            exp_len = 3 + int(lead) + int(trail)
-            ctx.must_hold(len(at) == exp_len and at[0] == ('o', 'expr', (op.nid,)) and at[-1] == ('o', 'expr', (cl.nid,)), 'math-delimited-shape', describe)
-            if len(at) != exp_len:
-                return
-            conds = []
-            idx = 1
-            for sp in (sp1, None, sp2):
-                if sp is None:
-                    if idx < len(at) - 1 and at[idx][0] == 'o':
-                        idx += 1
+                def describe(mdl):
+                    return dict(pattern=list(pat), enclosing_group_flat=enclosing_flat, spaces={str(q): nd.text.concrete(mdl) for q, nd in spaces.items()}, atoms=show_atoms(at),
+                                lead=spaces[0].text.concrete(mdl) if lead else None, trail=spaces[len(pat) - 1].text.concrete(mdl) if trail else None)
+                exp_len = 2 + len(pat)
+                ctx.must_hold(len(at) == exp_len and at[0] == ('o', 'expr', (op.nid,)) and at[-1] == ('o', 'expr', (cl.nid,)), 'math-delimited-shape', describe)
+                if len(at) != exp_len:
                     continue
-                a = at[idx]
-                is_nl = a == ('nl',)
-                is_blank = a[0] == 't' and a[1].is_concrete() and a[1].concrete() == ' '
-                conds.append(is_nl or is_blank)
-                conds.append(i_eq(is_nl, has_newline(sp.text)))
-                idx += 1
-            ctx.must_hold(b_and(*conds), 'math-delimiter-edge-whitespace-changed', describe)
-            nests = D.nest_offsets(d)
+                conds = []
+                for q, c in enumerate(pat):
+                    a = at[1 + q]
+                    if c == 'sp':
+                        is_nl = a == ('nl',)
+                        is_blank = a[0] == 't' and a[1].is_concrete() and a[1].concrete() == ' '
+                        conds.append(is_nl or is_blank)
+                        conds.append(i_eq(is_nl, has_newline(spaces[q].text)))
+                    elif c == 'c':
+                        conds.append(a[0] == 't' and a[1].is_concrete() and a[1].concrete() == '/*c%d*/' % q)
+                    else:
+                        conds.append(a[0] == 'o' and a[1] == 'math')
+                ctx.must_hold(b_and(*conds), 'math-delimiter-edge-whitespace-changed', describe)
+            nests = D.indent_nest_offsets(d)       # hang() of a comment is alignment, not indentation
             ctx.must_hold(len(nests) == 1 and i_eq(nests[0], cfg.get('tab_spaces'), 64), 'math-delimited-indent', describe)
-        ob, ex = S.explore('math.delimited[lead=%d,trail=%d]' % (lead, trail), 'convert_math_delimited with%s leading /%s trailing inner whitespace' % ('' if lead else 'out', '' if trail else 'out'), body)
+        ob, ex = S.explore('math.delimited[%s]' % ','.join(pat), 'convert_math_delimited with %r between the delimiters (sp: whitespace token with symbolic text, c: block comment, m: body)' % (pat,), body)
         for lab, mdl, info in ex.violations:
             found.append((lab, info))
 
@@ -232,6 +239,21 @@ def native_confirm(S, info):
     for s in (info.get('spaces') or {}).values():
         cands.append(('$ a%sb $\n' % s, 'a', 'b', s))
         cands.append(('$ a%s#x $\n' % s, 'a', '#x', s))
+    if info.get('pattern') and 'c' in info['pattern']:
+        body = ''
+        for q, c in enumerate(info['pattern']):
+            body += 'a' if c == 'm' else '/*c%d*/' % q if c == 'c' else info['spaces'].get(str(q), ' ')
+        src = '$(%s)$\n' % body
+        if S.driver.call('erroneous', hexs(src))[1] != '1':
+            for w in (80, 0):
+                f = S.driver.call('format', hexs(src), w, 2, 0)
+                if f[0] == 'ok':
+                    out = unhexs(f[1])
+                    import re as _re
+                    cls = lambda t: [ws_class(x) for x in _re.split(r'\(|\)|a|/\*c\d+\*/', t[t.find('('):t.rfind(')') + 1])[1:-1]]
+                    if cls(out) != cls(src):
+                        return dict(api='Typstyle::format_content', source=src, width=w, output=out,
+                                    what='whitespace between the delimiters, comments and body of a math group changed: %s -> %s' % (show(src), show(out)))
     for key in ('lead', 'trail'):
         s = info.get(key)
         if s:
